@@ -144,7 +144,7 @@ func checkPath(c pathCase) (msg string, class string) {
 	if outcome == "unspec" {
 		return "", "unspecified"
 	}
-	p := obs.Parse([]byte("[" + text + ", (" + text + ") === null, (" + text + ") == null]"))
+	p := obs.Parse([]byte("[" + text + ", (" + text + ") === null, (" + text + ") == null, null === (" + text + "), null == (" + text + "), (" + text + ") !== null, null != (" + text + ")]"))
 	if !p.OK() {
 		return fmt.Sprintf("HARNESS: %q does not parse: %v", text, p.Err), "harness"
 	}
@@ -159,7 +159,7 @@ func checkPath(c pathCase) (msg string, class string) {
 		return "", "assert-error"
 	}
 	arr, ok := out.Val.([]interface{})
-	if out.Err != nil || !ok || len(arr) != 3 {
+	if out.Err != nil || !ok || len(arr) != 7 {
 		return fmt.Sprintf("%s -> %s, the reference lookup gives %s", text, out, obs.Show(cur)), "value"
 	}
 	got := arr[0]
@@ -167,7 +167,20 @@ func checkPath(c pathCase) (msg string, class string) {
 	if b, ok := arr[1].(bool); !ok || b != isNullWant {
 		return fmt.Sprintf("(%s) === null is %s, want %v (reference value %s)", text, obs.Show(arr[1]), isNullWant, obs.Show(cur)), "null-test"
 	}
+	for k, want := range map[int]bool{3: isNullWant, 5: !isNullWant} {
+		if b, ok := arr[k].(bool); !ok || b != want {
+			return fmt.Sprintf("element %d of [x, x === null, x == null, null === x, null == x, x !== null, null != x] with x = %s is %s, want %v (reference value %s)", k, text, obs.Show(arr[k]), want, obs.Show(cur)), "null-test"
+		}
+	}
 	if isNullWant {
+		for _, k := range []int{4} {
+			if b, ok := arr[k].(bool); !ok || !b {
+				return fmt.Sprintf("null == (%s) is %s, want true", text, obs.Show(arr[k])), "null-test"
+			}
+		}
+		if b, ok := arr[6].(bool); !ok || b {
+			return fmt.Sprintf("null != (%s) is %s, want false", text, obs.Show(arr[6])), "null-test"
+		}
 		if b, ok := arr[2].(bool); !ok || !b {
 			return fmt.Sprintf("(%s) == null is %s, want true", text, obs.Show(arr[2])), "null-test"
 		}
